@@ -62,6 +62,7 @@ def run(chk):
         chk.violation("C04:" + key, msg, tc.replay_obj(small, msg, {"pair": {"kind": "project", "scene": s},
                                                                     "original_history": h["k"], "seed": chk.seed}))
         found = True
+    found = tc.visual_report(chk, "C04", data, found)
     tc.report_correspondence(chk, "C04", data, found)
     # scene isolation on the VISUAL trackers: oracles applied directly to real VisualSort / BatchVisualSort runs
     # (no cross-scene attachment; interleaved run vs per-scene projected run), tools/props/visual_c04.py
